@@ -161,7 +161,7 @@ CHECKS = {
     ),
     "C15": dict(
         category="exploration",
-        technique="complete position x payload x placement matrix (32 text-bearing positions of a template document x 50 hostile payloads mid-text, 13 edge-sensitive payloads also alone / at the start / at the end / on their own line / inside a long wrapped text; thorough: all 50 x 6 placements: quotes, triple quotes, backslash sequences, every Unicode line separator, NUL, bidi/astral characters, expression-injection strings, code-looking lines such as "async def f(self):" and "@overload") plus Hypothesis text() payloads, through generate_client; oracle = every emitted file parses, the AST skeleton (literals, docstrings and position-derived identifiers masked) equals the benign-payload baseline as a multiset, and semantic literals (enum values, wire names, mapping keys, defaults) evaluate/are sent as exactly the spec string",
+        technique="complete position x payload x placement matrix (32 text-bearing positions of a template document x 50 hostile payloads mid-text, 13 edge-sensitive payloads also alone / at the start / at the end / on their own line / inside a long wrapped text; thorough: all 50 x 6 placements: quotes, triple quotes, backslash sequences, every Unicode line separator, NUL, bidi/astral characters, expression-injection strings, code-looking lines such as 'async def f(self):' and '@overload') plus Hypothesis text() payloads, through generate_client; oracle = every emitted file parses, the AST skeleton (literals, docstrings and position-derived identifiers masked) equals the benign-payload baseline as a multiset, and semantic literals (enum values, wire names, mapping keys, defaults) evaluate/are sent as exactly the spec string",
         text="3 680 matrix cases + 400 Hypothesis cases (random text and token concatenations, random placement) per quick run; the matrix is complete for the listed positions and payloads. "
              "A payload may only change string constants, comments and (for name positions) the derived identifiers; the request observed "
              "at a mock transport must carry the raw parameter name. 9 root causes were found and repaired in three fix commits "
